@@ -869,6 +869,11 @@ def run(ctx, rep):
     check_second_pass(ctx, rep, m)
     check_bookkeeping(ctx, rep)
     check_capacity(ctx, rep, m)
+    # the table look-up behind the capacity (shared with C06/Q2): listed value iff listed, else '?'
+    from sa.effects import Effects
+    from rules.C06 import check_capacity_lookup
+    eff = Effects(ctx)
+    check_capacity_lookup(ctx, rep, eff, eff.table_vars()[1], "V7")
     check_writer(ctx, rep)
     rep.analysed.update({"derivation_function": R["D"].qual, "second_pass": R["second"].qual,
                          "iteration_paths": len(decmodel.iterations(m))})
